@@ -330,32 +330,31 @@ def bRepo : B := [114,101,112,111]
 /-- the non-recursive arms of the `switch tok.Type` in `parseExpr` (everything except `(`, `-`);
     `none` is Go's nil `expr` (`)`, `or`, and token kinds without a case) -/
 def atomOf (O : Oracle) (tok : Token) : Outcome (Option Q) :=
-  let text := tok.text
   if tok.typ = tokCase then
-    if text = bYes ∨ text = bNo ∨ text = bAuto then .ok (some (.caseQ text)) else .err "unknown case argument"
+    if tok.text = bYes ∨ tok.text = bNo ∨ tok.text = bAuto then .ok (some (.caseQ tok.text)) else .err "unknown case argument"
   else if tok.typ = tokRepo then
-    if O.compiles text then .ok (some (.repo text)) else .err "regexp compile"
-  else if tok.typ = tokArchived then yesNo text 16 32 "archived"
-  else if tok.typ = tokFork then yesNo text 4 8 "fork"
-  else if tok.typ = tokPublic then yesNo text 1 2 "public"
-  else if tok.typ = tokBranch then .ok (some (.branch text))
-  else if tok.typ = tokText ∨ tok.typ = tokRegex then (regexpQuery O text false false).bind fun q => .ok (some q)
-  else if tok.typ = tokFile then (regexpQuery O text false true).bind fun q => .ok (some q)
-  else if tok.typ = tokContent then (regexpQuery O text true false).bind fun q => .ok (some q)
+    if O.compiles tok.text then .ok (some (.repo tok.text)) else .err "regexp compile"
+  else if tok.typ = tokArchived then yesNo tok.text 16 32 "archived"
+  else if tok.typ = tokFork then yesNo tok.text 4 8 "fork"
+  else if tok.typ = tokPublic then yesNo tok.text 1 2 "public"
+  else if tok.typ = tokBranch then .ok (some (.branch tok.text))
+  else if tok.typ = tokText ∨ tok.typ = tokRegex then (regexpQuery O tok.text false false).bind fun q => .ok (some q)
+  else if tok.typ = tokFile then (regexpQuery O tok.text false true).bind fun q => .ok (some q)
+  else if tok.typ = tokContent then (regexpQuery O tok.text true false).bind fun q => .ok (some q)
   else if tok.typ = tokLang then
-    match O.lang text with
+    match O.lang tok.text with
     | none => .ok (some (.const false))
     | some c => .ok (some (.lang c))
   else if tok.typ = tokSym then
-    if text.isEmpty then .err "the sym: atom must have an argument"
-    else (regexpQuery O text false false).bind fun q => .ok (some (.sym q))
+    if tok.text.isEmpty then .err "the sym: atom must have an argument"
+    else (regexpQuery O tok.text false false).bind fun q => .ok (some (.sym q))
   else if tok.typ = tokType then
-    if text = bFilematch then .ok (some (.type 0 .nil))
-    else if text = bFilename ∨ text = bFile then .ok (some (.type 1 .nil))
-    else if text = bRepo then .ok (some (.type 2 .nil))
+    if tok.text = bFilematch then .ok (some (.type 0 .nil))
+    else if tok.text = bFilename ∨ tok.text = bFile then .ok (some (.type 1 .nil))
+    else if tok.text = bRepo then .ok (some (.type 2 .nil))
     else .err "unknown type argument"
   else if tok.typ = tokMeta then
-    match splitColon text with
+    match splitColon tok.text with
     | none => .err "invalid meta field syntax"
     | some (field, value) =>
       if O.compiles value then .ok (some (.metaQ field value)) else .err "invalid regexp in meta value"
